@@ -30,7 +30,15 @@ fn console_vxw_c05() {
         ("no key", false, "GET", "/metadata/instance?api-version=2021-02-01", ReqBody::None, false),
         ("exempt upload (key set, not signed)", true, "PUT", "/vmAgentLog", ReqBody::Len(b"log line".to_vec()), false),
     ];
+    // where the kernel lets us create the audit map: the first kind is repeated through the REAL handle_new_tcp_connection, the
+    // elevation then comes from the is_root field of a real audit_map record (original destination = the mock host)
+    let audit = h.install_audit_map();
+    let mut kinds = kinds;
+    if audit.is_some() {
+        kinds.push(("signed GET, real listener path (elevation from the audit_map record)", true, "GET", "/machine?comp=goalstate", ReqBody::None, true));
+    }
     for (kname, key, method, target, body, signed) in kinds.iter() {
+        let real = kname.contains("real listener path");
         h.set_key(if *key { Some(vx_key()) } else { None });
         for elevated in [false, true] {
             // a non-elevated caller can only reach IMDS, an elevated one is sent to WireServer
@@ -62,7 +70,7 @@ fn console_vxw_c05() {
                             }
                             let wire = vx_request_bytes(method, target, &headers, body);
                             let before = proxy_agent_shared::misc_helpers::get_date_time_rfc1123_string();
-                            let (r, _bytes, reqs) = h.one(&h.ps, &Attribution::full(elevated, ip, port), wire, false);
+                            let (r, _bytes, reqs) = if real { h.one_real(&h.ps, Some((audit.as_ref().unwrap(), elevated)), wire, false) } else { h.one(&h.ps, &Attribution::full(elevated, ip, port), wire, false) };
                             let after = proxy_agent_shared::misc_helpers::get_date_time_rfc1123_string();
                             if reqs.len() != 1 {
                                 // not relayed (or relayed more than once): nothing the statement says about this request here
